@@ -3,7 +3,7 @@
 proof:  PPLV.Props.C03Box over the code-shaped model lean/PPLV/WR/BoxTrans.lean, BoxTrans2.lean (a box = the list of
         C12-model intervals + the EMPTY / EMPTY_UP_TO_DATE status bits; add_constraint_no_check, refine_no_check,
         propagate_constraint(s)_no_check with its four sign blocks, max_min, affine_image / affine_preimage,
-        generalized_affine_image / _preimage in both forms, bounded_affine_image, unconstrain, is_empty / check_empty,
+        generalized_affine_image / _preimage in both forms, bounded_affine_image / _preimage, unconstrain, is_empty / check_empty,
         intersection / upper_bound / difference / concatenate, remove_higher_space_dimensions), for every interval
         policy and every sound directed rounding of the boundary type and of the temporaries.
 tie:    harness/c03_box.cc calls the REAL functions of Rational_Box, Z_Box, Int8_Box, Double_Box on boxes whose interval
@@ -17,7 +17,8 @@ verdicts: MISMATCH   -> the model does not say what the code does: CORRESPONDENC
                         about the model); when the judge fails on the same input the property itself is violated there.
           JUDGE-FAIL -> the real result loses a point of the exact result: VIOLATION with the journal line as replay
                         (open findings: structural predicate of the input, see `structural_tags`).
-          CRASH      -> the library died in the call.
+          CRASH      -> the library died in the call (bounded_affine_preimage is run in a child of its own: the model predicts
+                        its SIGFPE exactly, open finding KF-C03-1; a death the model does not predict is a CORRESPONDENCE-DIFF).
 """
 import collections, concurrent.futures as cf, hashlib, json, os, shutil
 from .common import BUILD
@@ -31,7 +32,8 @@ SITE = {"addc": "Box::add_constraint", "refine": "Box::refine_with_constraint", 
         "prop": "Box::propagate_constraint", "props": "Box::propagate_constraints", "aff": "Box::affine_image",
         "apre": "Box::affine_preimage", "gaff": "Box::generalized_affine_image(var)",
         "gapre": "Box::generalized_affine_preimage(var)", "gaffl": "Box::generalized_affine_image(lhs)",
-        "gaprel": "Box::generalized_affine_preimage(lhs)", "baff": "Box::bounded_affine_image", "unc": "Box::unconstrain",
+        "gaprel": "Box::generalized_affine_preimage(lhs)", "baff": "Box::bounded_affine_image",
+        "bapre": "Box::bounded_affine_preimage", "unc": "Box::unconstrain",
         "uncs": "Box::unconstrain", "isempty": "Box::is_empty", "meet": "Box::intersection_assign",
         "join": "Box::upper_bound_assign", "diff": "Box::difference_assign", "concat": "Box::concatenate_assign",
         "rmhi": "Box::remove_higher_space_dimensions"}
@@ -83,6 +85,10 @@ def structural_tags(ev):
         tags.append("coefficient_beyond_long_long_temporary")
     if any(k == "eq" and b == 0 and not any(cs) for k, cs, b in es):
         tags.append("trivial_equality_zero_eq_zero")
+    if ev["op"] == "bapre" and len(es) >= 2 and ev["args"][:1] and ev["args"][0].isdigit():
+        v = int(ev["args"][0])
+        if any((cs[v] if v < len(cs) else 0) == 0 for _, cs, _ in es[:2]):
+            tags.append("bound_expr_omits_var")          # KF-C03-1: the GMP division by zero
     return tags
 
 
@@ -149,8 +155,11 @@ def _examine(ctx, journal, verdicts, harness_args, cov):
                             " (the sampled members of the exact result are still in the real result)", vs[0][:500], line[:400]))
                 ctx.violation(what, dict(replay, tags=tags), found_input=True, record={"site": site, "tags": tags})
         elif kind == "CRASH":
-            tags = structural_tags(ev) + ["crash"]
-            cls = (site, tn, "CRASH")
+            predicted = "predicted" in head[4:6]
+            cov["crashes"]["%s %s %s" % (tn, ev["op"], "predicted_by_model" if predicted else "UNPREDICTED")] += 1
+            # a death that the model does not predict is a divergence of model and code, never an open finding
+            tags = (structural_tags(ev) + ["crash", "crash_predicted_by_model"]) if predicted else ["T_" + tn, "op_" + ev["op"], "crash", "model_mismatch"]
+            cls = (site, tn, "CRASH", predicted)
             reported[cls] += 1
             if reported[cls] <= 3:
                 ctx.violation("%s [%s]: the library dies in the call | event: %s" % (site, tn, line[:400]),
@@ -187,7 +196,7 @@ def run(ctx):
     harness_args = ["--seed", str(ctx.seed), "--per", str(per)]
     cov = {"verdicts": collections.Counter(), "branches": collections.Counter(), "per_type_op": collections.Counter(),
            "dims": collections.Counter(), "status_before": collections.Counter(), "outcomes": collections.Counter(),
-           "judge_fail_classes": collections.Counter(), "judged_points": 0}
+           "judge_fail_classes": collections.Counter(), "crashes": collections.Counter(), "judged_points": 0}
     _examine(ctx, journal, verdicts, harness_args, cov)
     events = [l for l in journal if parse_line(l)]
     key = lambda l: hashlib.sha256(" ".join(l.split()[1:]).encode()).hexdigest()
